@@ -100,7 +100,11 @@ pub fn add_realism(rng: &mut Rng, tree: &mut TreeSpec) -> Vec<String> {
                 }
                 let suffix = *rng.pick(SIBLING_SUFFIXES);
                 let p = format!("{}{}", f, suffix);
+                let original: Option<Content> = tree.entries.iter().find(|e| e.path == f).and_then(|e| if let EntryKind::File(c) = &e.kind { Some(c.clone()) } else { None });
                 let c = match suffix {
+                    // half of the compressed siblings really are the gzip form of the file (stored
+                    // blocks), the others are stale or unrelated bytes behind a gzip signature
+                    ".gz" if rng.chance(1, 2) && original.is_some() && len <= 100_000 => Content::GzipOf(Box::new(original.unwrap())),
                     ".gz" => magic_content(rng, Some("gzip")),
                     ".zst" => magic_content(rng, Some("zstd")),
                     ".part" => Content::Gen { marker: String::new(), len: *rng.pick(&[0usize, 1, len / 2, len, len + 1, len + 100]), seed: rng.next(), binary: true },
